@@ -60,3 +60,40 @@ Proof.
   pose proof (triples_stream_valid _ _ _ _ _ Hnew Hcfg Hnd Hfresh Hrun Hraise) as Hv. rewrite Hone in Hv.
   destruct (valid_bytes_decode_single f _ grouped Hv Hsmall) as (A & B & _). auto.
 Qed.
+
+(* ---- with namespace declarations (on or off): declarations first, then the statements ---- *)
+From PJ.Proofs Require Import EncNamespace EncNamespace2.
+
+Theorem triples_bytes_round_trip_ns (o : soptions) (s s' : stream) (d : sdata) (evs : list tev) (grouped : bool) :
+  stream_new TripleStream Generic o = Ok s -> cfg_ok o (st_logical s) -> fl_rows (st_flow s) = [] ->
+  triples_stream_frames d s = (s', evs) -> raised evs = None -> Forall small (emitted evs) ->
+  let r := parse_stream Generic grouped false (write_delimited (emitted evs)) in
+  flat_events r = ns_events o d ++ flat_map event_of_triple (d_stmts d) /\ pr_end r = PEnd.
+Proof.
+  intros Hnew Hcfg Hfresh Hrun Hraise Hsmall.
+  assert (Hv : run_frames (emitted evs) = Valid (ns_events o d ++ flat_map event_of_triple (d_stmts d))) by (unfold run_frames; eapply triples_stream_valid_ns; eauto).
+  destruct (valid_bytes_decode_delimited (emitted evs) _ grouped Hv Hsmall) as (A & B & _); [apply first_plain; eapply triples_frames_plain; eauto|auto].
+Qed.
+
+Theorem quads_bytes_round_trip_ns (o : soptions) (s s' : stream) (d : sdata) (evs : list tev) (grouped : bool) :
+  stream_new QuadStream Generic o = Ok s -> cfg_ok o (st_logical s) -> fl_rows (st_flow s) = [] ->
+  quads_stream_frames d s = (s', evs) -> raised evs = None -> Forall small (emitted evs) ->
+  let r := parse_stream Generic grouped false (write_delimited (emitted evs)) in
+  flat_events r = ns_events o d ++ flat_map event_of_quad (d_stmts d) /\ pr_end r = PEnd.
+Proof.
+  intros Hnew Hcfg Hfresh Hrun Hraise Hsmall.
+  assert (Hv : run_frames (emitted evs) = Valid (ns_events o d ++ flat_map event_of_quad (d_stmts d))) by (unfold run_frames; eapply quads_stream_valid_ns; eauto).
+  destruct (valid_bytes_decode_delimited (emitted evs) _ grouped Hv Hsmall) as (A & B & _); [apply first_plain; eapply quads_frames_plain; eauto|auto].
+Qed.
+
+Theorem graphs_bytes_round_trip_ns (o : soptions) (s s' : stream) (d : sdata) (evs : list tev) (grouped : bool) :
+  stream_new GraphStream Generic o = Ok s -> cfg_ok o (st_logical s) -> fl_rows (st_flow s) = [] ->
+  forallb wf_quad (d_stmts d) = true ->
+  graphs_stream_frames_generic d s = (s', evs) -> raised evs = None -> Forall small (emitted evs) ->
+  let r := parse_stream Generic grouped false (write_delimited (emitted evs)) in
+  flat_events r = ns_events o d ++ flat_map event_of_quad (d_stmts d) /\ pr_end r = PEnd.
+Proof.
+  intros Hnew Hcfg Hfresh Hwf Hrun Hraise Hsmall.
+  assert (Hv : run_frames (emitted evs) = Valid (ns_events o d ++ flat_map event_of_quad (d_stmts d))) by (unfold run_frames; eapply graphs_stream_valid_ns; eauto).
+  destruct (valid_bytes_decode_delimited (emitted evs) _ grouped Hv Hsmall) as (A & B & _); [apply first_plain; eapply graphs_frames_plain; eauto|auto].
+Qed.
